@@ -403,24 +403,24 @@ func (r *Recomposer) recomp(v any, rv reflect.Value) {
 		switch {
 		case et.Kind() == reflect.Interface:
 			for k, m := range vm {
-				rv.SetMapIndex(reflect.ValueOf(k), reflect.ValueOf(r.recompAny(m)))
+				rv.SetMapIndex(reflect.ValueOf(k).Convert(rv.Type().Key()), reflect.ValueOf(r.recompAny(m)))
 			}
 		case et.Kind() == reflect.Ptr:
 			et = et.Elem()
 			for k, m := range vm {
 				if m == nil { // a null member stays a nil pointer
-					rv.SetMapIndex(reflect.ValueOf(k), reflect.Zero(rv.Type().Elem()))
+					rv.SetMapIndex(reflect.ValueOf(k).Convert(rv.Type().Key()), reflect.Zero(rv.Type().Elem()))
 					continue
 				}
 				ev := reflect.New(et)
 				r.recomp(m, ev)
-				rv.SetMapIndex(reflect.ValueOf(k), ev)
+				rv.SetMapIndex(reflect.ValueOf(k).Convert(rv.Type().Key()), ev)
 			}
 		default:
 			for k, m := range vm {
 				ev := reflect.New(et)
 				r.recomp(m, ev)
-				rv.SetMapIndex(reflect.ValueOf(k), ev.Elem())
+				rv.SetMapIndex(reflect.ValueOf(k).Convert(rv.Type().Key()), ev.Elem())
 			}
 		}
 	case reflect.Struct:
